@@ -1025,6 +1025,10 @@ fn grid() {
                 6 => v.extend_from_slices_copy(&[&[x]]),
                 7 => v.push(x),
                 9 => { v.try_reserve(1).unwrap(); v.push(x); }
+                // splice with a tail behind the range and a replacement longer than the range
+                10 => { let m = v.len() / 2; v.splice(m..m, std::iter::once(x)); }
+                11 => { let m = v.len() / 2; let e = (m + 1).min(v.len()); v.splice(m..e, [x, x + 1]); }
+                12 => { v.insert(0, x); }
                 _ => v.reserve(1),
             }
             if how == 8 { unsafe { v.set_len(v.len() + 1) }; }
@@ -1032,10 +1036,10 @@ fn grid() {
             if v.capacity() != cap { moves += 1; cap = v.capacity(); }
         }
         let bound = (usize::BITS - steps.leading_zeros()) as usize + 2;
-        let name = ["resize", "extend_once", "extend_from_slice", "extend_from_slice_copy", "insert", "append", "extend_from_slices_copy", "push", "reserve_one", "try_reserve_one"][how];
+        let name = ["resize", "extend_once", "extend_from_slice", "extend_from_slice_copy", "insert", "append", "extend_from_slices_copy", "push", "reserve_one", "try_reserve_one", "splice_insert", "splice_replace", "insert_front"][how];
         println!("R vec_growth_by_{} es=4 steps={} reallocs={} bound={}", name, steps, moves, bound);
     }
-    for how in [0usize, 1, 2, 3, 4, 5, 6, 8, 9] { growth_by(how, 1500); }
+    for how in [0usize, 1, 2, 3, 4, 5, 6, 8, 9, 10, 11, 12] { growth_by(how, 1500); }
     {
         // io::Write for Vec<u8> and String::push_str / insert / extend, one unit at a time
         use std::io::Write;
@@ -1044,15 +1048,22 @@ fn grid() {
         let (mut moves, mut cap) = (0usize, w.capacity());
         for i in 0..3000usize { w.write_all(&[i as u8]).unwrap(); if i % 3 == 0 { bump.alloc(i as u8); } if w.capacity() != cap { moves += 1; cap = w.capacity(); } }
         println!("R vec_growth_by_io_write es=1 steps=3000 reallocs={} bound=14", moves);
-        for how in 0..3usize {
+        for how in 0..6usize {
             let mut st = bumpalo::collections::String::new_in(&bump);
             let (mut moves, mut cap) = (0usize, st.capacity());
             for i in 0..3000usize {
-                match how { 0 => st.push_str("a"), 1 => st.insert(st.len() / 2, 'a'), _ => st.extend(std::iter::once('a')) }
+                match how {
+                    0 => st.push_str("a"),
+                    1 => st.insert(st.len() / 2, 'a'),
+                    2 => st.extend(std::iter::once('a')),
+                    3 => { let m = st.len() / 2; st.replace_range(m..m, "a") }
+                    4 => st.insert_str(0, "a"),
+                    _ => { use std::fmt::Write as _; let _ = write!(st, "{}", i % 10); }
+                }
                 if i % 3 == 0 { bump.alloc(i as u8); }
                 if st.capacity() != cap { moves += 1; cap = st.capacity(); }
             }
-            println!("R string_growth_by_{} es=1 steps=3000 reallocs={} bound=14", ["push_str", "insert", "extend_once"][how], moves);
+            println!("R string_growth_by_{} es=1 steps=3000 reallocs={} bound=14", ["push_str", "insert", "extend_once", "replace_range", "insert_str", "write_fmt"][how], moves);
         }
     }
     growth::<1>(3000); growth::<3>(1000); growth::<8>(1000); growth::<24>(600); growth::<100>(300);
@@ -1379,7 +1390,11 @@ fn grid() {
                         17 => { let w = std::mem::replace(&mut v, $mk); let mut it = w.into_iter(); it.next(); vec![it.fold(7u32, |acc, x| acc * 5 + x.0)] }
                         18 => { let led2 = led.clone(); let mut sp = v.splice(a..b, (0..k as u32).map(move |i| D(100 + i, led2.clone()))); let h = sp.size_hint(); let x = sp.nth(1).map(|d| d.0); let y = sp.next_back().map(|d| d.0); drop(sp);
                                 vec![h.0 as u32, h.1.unwrap_or(999) as u32, x.unwrap_or(77), y.unwrap_or(77)] }
-                        _ => { let led2 = led.clone(); v.splice(a..b, (0..k as u32).map(move |i| D(100 + i, led2.clone()))).rev().map(|d| d.0).collect() }
+                        19 => { let led2 = led.clone(); v.splice(a..b, (0..k as u32).map(move |i| D(100 + i, led2.clone()))).rev().map(|d| d.0).collect() }
+                        // a draining iterator that is leaked after it has yielded something: the vector must not
+                        // show what was moved out (it may leak the rest)
+                        20 => { let mut d = v.drain(a..b); let x: Vec<u32> = d.by_ref().take(k).map(|d| d.0).collect(); std::mem::forget(d); x }
+                        _ => { let mut d = v.drain(a..b); let x: Vec<u32> = d.by_ref().rev().take(k).map(|d| d.0).collect(); std::mem::forget(d); x }
                     };
                     let mut mid = led.borrow().clone();
                     mid.sort();
@@ -1394,7 +1409,7 @@ fn grid() {
                 for a in 0..=n.min(3) {
                     for b in a..=n {
                         for k in 0..4usize {
-                            for how in 0..20 {
+                            for how in 0..22 {
                                 if ((7..=10).contains(&how) || (15..=17).contains(&how)) && (a != 0 || b != n) { continue; }
                                 let rb = scenario!(BVec::new_in(&bump), n, a, b, k, how);
                                 let rs = scenario!(Vec::new(), n, a, b, k, how);
@@ -1402,12 +1417,99 @@ fn grid() {
                                 // every original element and every replacement that was produced is dropped exactly once
                                 let mut want: Vec<u32> = (0..n as u32).collect();
                                 if how >= 18 { want.extend((0..k as u32).map(|i| 100 + i)); }
-                                let once = rb.3 == want;
+                                let once = if how >= 20 {
+                                    // leaked drains: nothing twice (some elements may never be dropped)
+                                    rb.3.windows(2).all(|w| w[0] != w[1]) && rb.0.iter().all(|x| !rb.1.contains(x))
+                                } else { rb.3 == want };
                                 if rb != rs || !once {
                                     bad += 1;
                                     if bad <= 3 { println!("Q drain_adaptors n={} range={}..{} k={} how={} | got={:?} left={:?} dropped_then={:?} dropped_in_all={:?} | got={:?} left={:?} dropped_then={:?}", n, a, b, k, how, rb.0, rb.1, rb.2, rb.3, rs.0, rs.1, rs.2); }
                                 }
                             }
+                        }
+                    }
+                }
+            }
+            // C16: an element whose destructor panics is among the items an adaptor skips (nth, skip,
+            // step_by over IntoIter and Drain): after the unwinding, and after the iterator and the vector
+            // are dropped, nothing has been dropped twice, and the drops are std's
+            {
+                struct P(u32, Rc<RefCell<Vec<u32>>>, bool);
+                impl Drop for P {
+                    fn drop(&mut self) {
+                        self.1.borrow_mut().push(self.0);
+                        if self.2 && !std::thread::panicking() { panic!("boom drop"); }
+                    }
+                }
+                macro_rules! pscenario {
+                    ($mk:expr, $n:expr, $j:expr, $k:expr, $how:expr) => {{
+                        let led = Rc::new(RefCell::new(Vec::<u32>::new()));
+                        let mut v = $mk;
+                        for i in 0..$n as u32 { v.push(P(i, led.clone(), i as usize == $j)); }
+                        let k = $k;
+                        let mut outcome = Vec::new();
+                        match $how {
+                            0 => { let mut it = v.into_iter();
+                                   outcome.push(catch_unwind(AssertUnwindSafe(|| it.nth(k).map(|p| { let id = p.0; std::mem::forget(p); id }))).ok().flatten().unwrap_or(77));
+                                   outcome.push(catch_unwind(AssertUnwindSafe(|| it.next().map(|p| { let id = p.0; std::mem::forget(p); id }))).ok().flatten().unwrap_or(77));
+                                   let _ = catch_unwind(AssertUnwindSafe(move || drop(it))); }
+                            1 => { let it = v.into_iter();
+                                   let _ = catch_unwind(AssertUnwindSafe(move || { let mut s = it.skip(k).step_by(2); let x = s.next(); std::mem::forget(x); drop(s); })); }
+                            _ => { { let mut d = v.drain(..);
+                                     outcome.push(catch_unwind(AssertUnwindSafe(|| d.nth(k).map(|p| { let id = p.0; std::mem::forget(p); id }))).ok().flatten().unwrap_or(77));
+                                     let _ = catch_unwind(AssertUnwindSafe(move || drop(d))); }
+                                   outcome.push(v.len() as u32);
+                                   let _ = catch_unwind(AssertUnwindSafe(move || drop(v))); }
+                        }
+                        let mut all = led.borrow().clone();
+                        all.sort();
+                        (outcome, all)
+                    }};
+                }
+                for n in [1usize, 3, 6] {
+                    for j in 0..n {
+                        for k in 0..4usize {
+                            for how in 0..3 {
+                                let rb = pscenario!(BVec::new_in(&bump), n, j, k, how);
+                                let rs = pscenario!(Vec::new(), n, j, k, how);
+                                cases += 1;
+                                // (which of the skipped items std has dropped by then differs: its IntoIter
+                                // drops a skipped run in one go and carries on after a panic; only the
+                                // property's own demands are checked: nothing twice, nothing that was handed
+                                // out is dropped)
+                                let twice = rb.1.windows(2).any(|w| w[0] == w[1]) || rs.1.windows(2).any(|w| w[0] == w[1]);
+                                let handed_out_dropped = how != 2 && rb.0.iter().any(|x| *x != 77 && rb.1.contains(x));
+                                if twice || handed_out_dropped {
+                                    bad += 1;
+                                    if bad <= 3 { println!("Q drain_adaptors panicking_drop n={} boom={} k={} how={} | {:?} dropped={:?} | {:?} dropped={:?}", n, j, k, how, rb.0, rb.1, rs.0, rs.1); }
+                                }
+                            }
+                        }
+                    }
+                }
+            }
+            // DrainFilter (no stable counterpart in std): yields some items, then is leaked or dropped
+            // normally; nothing is dropped twice and nothing taken stays in the vector
+            for n in [1usize, 4, 7] {
+                for k in 0..4usize {
+                    for leak in [false, true] {
+                        let led = Rc::new(RefCell::new(Vec::<u32>::new()));
+                        let mut v = BVec::new_in(&bump);
+                        for i in 0..n as u32 { v.push(D(i, led.clone())); }
+                        let mut d = v.drain_filter(|x| x.0 % 2 == 0);
+                        let taken: Vec<u32> = d.by_ref().take(k).map(|d| d.0).collect();
+                        if leak { std::mem::forget(d); } else { drop(d); }
+                        let left: Vec<u32> = v.iter().map(|d| d.0).collect();
+                        drop(v);
+                        let mut all = led.borrow().clone();
+                        all.sort();
+                        cases += 1;
+                        let twice = all.windows(2).any(|w| w[0] == w[1]);
+                        let exposed = taken.iter().any(|x| left.contains(x));
+                        let complete = leak || all == (0..n as u32).collect::<Vec<_>>();
+                        if twice || exposed || !complete {
+                            bad += 1;
+                            if bad <= 3 { println!("Q drain_adaptors drain_filter n={} k={} leak={} | taken={:?} left={:?} dropped={:?} | -", n, k, leak, taken, left, all); }
                         }
                     }
                 }
